@@ -101,8 +101,11 @@ def natDigits (n : Nat) : List Char := Nat.toDigits 10 n
 
 /-- case 4 of `_make_seq_element` -/
 def intElem (cfg : SgrCfg) (id : List Char) (n : Int) : Except Err (List Char) :=
-  if n < 0 ∨ n > 255 then .error .valueError
-  else .ok (id ++ cfg.ext ++ natDigits n.toNat)
+  match n with
+  | .negSucc _ => .error .valueError                 -- `color < 0`
+  | .ofNat k =>
+    if k > 255 then .error .valueError               -- `color > 255`
+    else .ok (id ++ cfg.ext ++ natDigits k)
 
 def seqElement (cfg : SgrCfg) (isBg : Bool) (c : ColorSpec) : Except Err (List Char) :=
   let id := if isBg then cfg.bgId else cfg.fgId
